@@ -81,7 +81,42 @@ def cases(tier, seed):
                 for j in thin:
                     for k in thin:
                         out.append({"frame": fr, "what": "projcalls", "calls": [i, j, k]})
+    # two operations that project their common edge (to the same or to different surfaces), both add orders
+    for labels in (("geoA", "geoB"), ("geoA", "geoA"), ("geoB", "geoA")):
+        for order in (0, 1):
+            out.append({"frame": frames[0], "what": "proj2ops", "labels": list(labels), "order": order})
     return out
+
+
+def run_proj2ops(case):
+    import classy_blocks as cb
+
+    coords = dict(case)
+    violations = []
+    a = cb.Box([0, 0, 0], [1, 1, 1])
+    b = cb.Box([1, 0, 0], [2, 1, 1])
+    a.project_edge(1, 2, case["labels"][0])  # the line x = 1, z = 0 ...
+    b.project_edge(0, 3, case["labels"][1])  # ... is edge 0-3 of the second box
+    for op in (a, b):
+        for ax in range(3):
+            op.chop(ax, count=2)
+    mesh = cb.Mesh()
+    for op in ((a, b) if case["order"] == 0 else (b, a)):
+        mesh.add(op)
+    mesh.add_geometry({"geoA": ["type searchablePlane", "planeType pointAndNormal", "point (0 0 0)", "normal (0 0 1)"], "geoB": ["type searchablePlane", "planeType pointAndNormal", "point (1 0 0)", "normal (1 0 0)"]})
+    path = os.path.join(runner.scratch_dir(), f"c07_{os.getpid()}")
+    try:
+        mesh.write(path)
+    except Exception as err:
+        violations.append({"clause": "write-raised", "coords": coords, "detail": f"{type(err).__name__}: {err}"})
+        return {"violations": violations, "outcome": "raised", "nontrivial": True}
+    d = foamdict.parse(open(path).read())
+    pos = [tuple(round(x, 6) for x in v["pos"]) for v in d["vertices"]]
+    mine = [e for e in d["edges"] if {pos[e["v"][0]], pos[e["v"][1]]} == {(1.0, 0.0, 0.0), (1.0, 1.0, 0.0)}]
+    want = sorted(set(case["labels"]))
+    if len(d["edges"]) != 1 or len(mine) != 1 or mine[0]["kind"] != "project" or sorted(mine[0]["labels"]) != want:
+        violations.append({"clause": "project-labels", "coords": coords, "detail": f"edges written: {[(e['kind'], e['v'], e.get('labels')) for e in d['edges']]}; the common edge was projected to {want}"})
+    return {"violations": violations, "outcome": f"proj2ops:{len(want)}", "nontrivial": True}
 
 
 def proj_calls():
@@ -343,6 +378,8 @@ def build(case):
 def run_case(case):
     if case.get("what") == "projcalls":
         return run_projcalls(case)
+    if case.get("what") == "proj2ops":
+        return run_proj2ops(case)
     kind = case["kind"]
     coords = dict(case)
     violations = []
